@@ -1,3 +1,184 @@
 (* Properties_C09.v -- property theorems only.  C09: delayed events fire once, not early, in due
-   order, unless cancelled. (under construction) *)
-From V Require Import Base Delay DelayParse.
+   order, unless cancelled.
+
+   Model: Delay.v -- the interpreter thread executes an arbitrary program [p] of sends, cancels
+   and cancelAllDelayed; the timer thread runs libevent's callbacks; [sched] is an arbitrary list
+   of thread ids (any length; a thread that cannot move stays).  [v] selects the protocol variant:
+   [dv_pinned] is the code as it is, [dv_window] the small repair (patches/C09-*.diff),
+   [dv_repaired] the redesign in which cancel never waits for a running callback.
+   libevent's choice of the next expired timer is the parameter [pick], constrained only by
+   [pick_sound] (it picks a due timer with the least due time). *)
+From V Require Import Base Delay DelayLemmas DelayRaceLemmas DelayOracleLemmas DelayLockLemmas DelayParse DelayParseLemmas.
+Local Open Scope N_scope.
+
+(* ---- all variants, all programs, all schedules ---- *)
+
+(* U: an event is delivered at most once *)
+Theorem fires_at_most_once : forall v pick, pick_sound pick -> forall p sched,
+  wf_prog p = true -> NoDup (delivered (trace (run v pick (init p) sched))).
+Proof. exact fires_at_most_once_lemma. Qed.
+Print Assumptions fires_at_most_once.
+
+(* U: never before enqueue time + delay (logical time) *)
+Theorem never_early : forall v pick, pick_sound pick -> forall p sched u t tgt b,
+  wf_prog p = true ->
+  In (EDeliver u t tgt b) (trace (run v pick (init p) sched)) ->
+  exists sid tgt' enq d, In (ESend u sid tgt' enq d) (trace (run v pick (init p) sched)) /\ enq + d <= t.
+Proof. exact never_early_lemma. Qed.
+Print Assumptions never_early.
+
+(* U: of two deliveries made by the timer thread the later one (u2, nearer the head of the
+   history) is not due earlier; i.e. events whose due times differ are delivered in due order.
+   (A send with delay 0 is delivered by the interpreter thread itself and is not ordered against
+   callbacks that are already running.) *)
+Theorem due_order : forall v pick, pick_sound pick ->
+  forall p sched l1 l2 l3 u1 t1 g1 u2 t2 g2 s1 a1 e1 d1 s2 a2 e2 d2,
+  wf_prog p = true ->
+  let tr := trace (run v pick (init p) sched) in
+  tr = l1 ++ EDeliver u2 t2 g2 true :: l2 ++ EDeliver u1 t1 g1 true :: l3 ->
+  In (ESend u1 s1 a1 e1 d1) tr -> In (ESend u2 s2 a2 e2 d2) tr ->
+  e1 + d1 <= e2 + d2.
+Proof. exact due_order_lemma. Qed.
+Print Assumptions due_order.
+
+(* U: after a <cancel> that returned (ECancelDone at time tc) before the due time of an event
+   sent earlier under that sendid, the event is never delivered *)
+Theorem cancel_before_due_never_fires : forall v pick, pick_sound pick ->
+  forall p sched l1 sid tc l2 u tgt enq d,
+  wf_prog p = true ->
+  trace (run v pick (init p) sched) = l1 ++ ECancelDone sid tc :: l2 ->
+  In (ESend u sid tgt enq d) l2 -> tc < enq + d ->
+  ~ In u (delivered (trace (run v pick (init p) sched))).
+Proof. exact cancel_before_due_lemma. Qed.
+Print Assumptions cancel_before_due_never_fires.
+
+(* U: the executable oracle that judges the histories observed on the implementation
+   (delay_admissibleb: at most once, not early, due order, cancel before due) accepts every
+   history of the model; and what it accepts is delivered at most once and not early *)
+Theorem model_history_admissible : forall v pick p sched,
+  pick_sound pick -> wf_prog p = true ->
+  delay_admissibleb 0 (trace (run v pick (init p) sched)) = true.
+Proof. exact model_history_admissible_lemma. Qed.
+Print Assumptions model_history_admissible.
+
+Theorem oracle_sound : forall g tr, delay_admissibleb g tr = true ->
+  NoDup (delivered tr) /\
+  (forall u t tgt b, In (EDeliver u t tgt b) tr ->
+     exists sid tgt' enq d, In (ESend u sid tgt' enq d) tr /\ enq + d <= t).
+Proof. exact oracle_sound_lemma. Qed.
+Print Assumptions oracle_sound.
+
+(* the assumption on libevent is satisfiable (the instance used for all computations) *)
+Theorem pick_assumption_satisfiable : pick_sound pick_min.
+Proof. exact pick_min_sound. Qed.
+Print Assumptions pick_assumption_satisfiable.
+
+(* the critical sections the model treats as atomic take their mutex before the first and hold it
+   to the last use of the guarded map, in the source of the working tree (regenerated inventory) *)
+Theorem delay_critical_sections_locked : delay_sections_locked = true.
+Proof. exact delay_sections_locked_lemma. Qed.
+Print Assumptions delay_critical_sections_locked.
+
+(* ---- the race clauses ---- *)
+
+(* U for every variant in which section 1 of timerCallback takes the entry out of the map *)
+Theorem no_use_after_free : forall v pick p sched,
+  dv_cb_takes_entry v = true -> fault (run v pick (init p) sched) = None.
+Proof. exact no_use_after_free_lemma. Qed.
+Print Assumptions no_use_after_free.
+
+(* ... refuted for the code as it is: cancel after section 1 calls event_del on the freed timer *)
+Theorem no_use_after_free_pinned_refuted :
+  exists pick p sched, pick_sound pick /\ wf_prog p = true /\
+    fault (run dv_pinned pick (init p) sched) = Some (UseAfterFree 1).
+Proof.
+  exists pick_min, w_prog, w_uaf. split; [exact pick_min_sound | exact pinned_uaf_witness].
+Qed.
+Print Assumptions no_use_after_free_pinned_refuted.
+
+(* U for every variant in which cancel does not wait for a running callback *)
+Theorem no_deadlock : forall v pick p sched,
+  dv_cancel_noblock v = true -> deadlocked v pick (run v pick (init p) sched) = false.
+Proof. exact no_deadlock_lemma. Qed.
+Print Assumptions no_deadlock.
+
+(* ... refuted for the code as it is, and for the small repair: cancel between the start of the
+   callback and its section 1 holds the queue's mutex inside event_del, the callback waits for it *)
+Theorem no_deadlock_pinned_refuted :
+  exists pick p sched, pick_sound pick /\ wf_prog p = true /\
+    deadlocked dv_pinned pick (run dv_pinned pick (init p) sched) = true.
+Proof.
+  exists pick_min, w_prog, w_deadlock. split; [exact pick_min_sound | exact pinned_deadlock_witness].
+Qed.
+Print Assumptions no_deadlock_pinned_refuted.
+
+Theorem no_deadlock_window_refuted :
+  exists pick p sched, pick_sound pick /\ wf_prog p = true /\
+    deadlocked dv_window pick (run dv_window pick (init p) sched) = true.
+Proof.
+  exists pick_min, w_prog, w_deadlock. split; [exact pick_min_sound | exact window_deadlock_witness].
+Qed.
+Print Assumptions no_deadlock_window_refuted.
+
+(* U for the repaired protocol: a cancel racing with the delivery ends in one of the two outcomes
+   (delivered once, to the target named in the send; or not delivered), never in a fault or a
+   dead-lock *)
+Theorem cancel_fire_race_two_outcomes : forall pick, pick_sound pick -> forall p sched,
+  wf_prog p = true -> race_ok dv_repaired pick (run dv_repaired pick (init p) sched).
+Proof. intros pick Hp p sched Hwf. now apply race_two_outcomes_lemma. Qed.
+Print Assumptions cancel_fire_race_two_outcomes.
+
+Theorem cancel_fire_race_two_outcomes_pinned_refuted :
+  exists pick p sched, pick_sound pick /\ wf_prog p = true /\
+    ~ race_ok dv_pinned pick (run dv_pinned pick (init p) sched).
+Proof.
+  exists pick_min, w_prog, w_uaf. split; [exact pick_min_sound|]. split; [exact (proj1 pinned_uaf_witness)|].
+  intros (Hf & _). rewrite (proj2 pinned_uaf_witness) in Hf. discriminate.
+Qed.
+Print Assumptions cancel_fire_race_two_outcomes_pinned_refuted.
+
+(* ---- the delay-string codec (DelayParse.v) ---- *)
+
+(* U: "<digits>[.<digits>]ms", ".<digits>ms" and the unit-less forms: whole milliseconds, for
+   every value that fits the width of delayMs (uint32_t in the pinned code) *)
+Theorem delay_parse_ms_correct : forall dv ip fp (hasdot : bool) un,
+  wf_number ip hasdot fp = true -> un <> UnitS -> digits_val 0 ip <= umax dv ->
+  delay_parse dv (render ip hasdot fp un) = DpMs (digits_val 0 ip) /\
+  delay_spec (render ip hasdot fp un) = Some (digits_val 0 ip).
+Proof. exact delay_parse_ms_lemma. Qed.
+Print Assumptions delay_parse_ms_correct.
+
+(* B: "<i>.<f>s" for every integer part below 30 and every fraction of one to three digits
+   (33300 strings, by computation): within one millisecond below the exact value, never above *)
+Theorem delay_parse_s_fraction_upto_30_3 : forall i fl f,
+  i < 30 -> (1 <= fl <= 3)%nat -> f < 10 ^ N.of_nat fl ->
+  exists m sp, delay_parse dpv_pinned (render_s i fl f) = DpMs m /\ delay_spec (render_s i fl f) = Some sp /\
+               sp - 1 <= m /\ m <= sp.
+Proof. exact delay_parse_s_fraction_lemma. Qed.
+Print Assumptions delay_parse_s_fraction_upto_30_3.
+
+(* B: whole seconds "<i>s" up to 5000 s are exact *)
+Theorem delay_parse_s_integral_upto_5000 : forall i,
+  i <= 5000 -> delay_parse dpv_pinned (render_si i) = DpMs (1000 * i) /\ delay_spec (render_si i) = Some (1000 * i).
+Proof. exact delay_parse_s_integral_lemma. Qed.
+Print Assumptions delay_parse_s_integral_upto_5000.
+
+(* exactness of the seconds branch is refuted: "1.001s" is 1000 ms (strtod, then * 1000 in
+   binary64, then truncation) *)
+Theorem delay_parse_s_exact_refuted : forall dv,
+  exists s m, delay_spec s = Some m /\ delay_parse dv s <> DpMs m.
+Proof. exact delay_parse_s_exact_refuted_lemma. Qed.
+Print Assumptions delay_parse_s_exact_refuted.
+
+(* definedness is refuted: a value beyond uint32_t milliseconds ends in an out-of-range
+   conversion, a text without any digit in a read of an uninitialised variable *)
+Theorem delay_parse_defined_pinned_refuted :
+  (exists s m, delay_spec s = Some m /\ delay_parse dpv_pinned s = DpUB) /\ (exists s, delay_parse dpv_pinned s = DpUninit).
+Proof. exact delay_parse_defined_refuted_lemma. Qed.
+Print Assumptions delay_parse_defined_pinned_refuted.
+
+(* U: with strTo value-initialising its result no text ends in an uninitialised read; the witness
+   "4294968s" is 4294968000 ms with a 64 bit delayMs *)
+Theorem delay_parse_initialised : forall dv s, dpv_init dv = true -> delay_parse dv s <> DpUninit.
+Proof. exact delay_parse_fixed_init_lemma. Qed.
+Print Assumptions delay_parse_initialised.
